@@ -184,7 +184,13 @@ func regexCompare(field string, value string) (CompareFunc, error) {
 	if len(value) < 2 || value[0] != '/' || value[len(value)-1] != '/' {
 		return nil, fmt.Errorf("regex not enclosed in //")
 	}
-	value = fmt.Sprintf("^(?:%s)$", value[1:len(value)-1])
+	pattern := value[1 : len(value)-1]
+	// The pattern must be a regular expression in its own right: one with unbalanced parentheses
+	// such as "a)|(?:b" would otherwise be completed by the anchoring group below.
+	if _, err := regexp.Compile(pattern); err != nil {
+		return nil, fmt.Errorf("regex failed to compile: %s", pattern)
+	}
+	value = fmt.Sprintf("^(?:%s)$", pattern)
 	re, err := regexp.Compile(value)
 	if err != nil {
 		return nil, fmt.Errorf("regex failed to compile: %s", value)
